@@ -10,7 +10,7 @@ from ..hx import assume, require, Skip, reach
 MANIFEST = dict(
     engines="AB",
     technique="regex-to-SMT language equivalence (z3 strings/regex, unbounded length) of the live re_valid_version against the Policy grammar, plus symbolic execution (CrossHair+z3) of construction, decomposition and component assignment with rollback on bounded strings",
-    text="Engine B decides, for strings of any length over code points <= U+2FFFF, that the set accepted by Version() (the live regex plus the colon/epoch test re-read from the AST) equals the Policy 5.6.12 grammar; every witness is replayed through Version(). Engine A executes the real constructor, str(), the component getters and __setattr__ (rollback) symbolically for all strings up to 3-4 characters (any Unicode) and one or two assignments with symbolic values up to 2-3 characters or None.",
+    text="Engine B decides, for strings of any length over code points <= U+2FFFF, that the set accepted by Version() (the live regex plus the colon/epoch test re-read from the AST) equals the Policy 5.6.12 grammar; every witness is replayed through Version(). Engine A executes the real constructor, str(), the component getters and __setattr__ (rollback) symbolically for all strings up to 3-4 characters (any Unicode) and one or two assignments with symbolic values up to 2-3 characters or None. Long strings: catalogue prefixes (epochs 2^31-1, 2^31, 2^32, 2^64, ten zeros, 40-digit upstream) + a symbolic middle of 0-1 (thorough: 3) characters + catalogue suffixes; two consecutive assignments of long catalogue values (incl. values that bring their own epoch).",
     note="Trusted: z3's sequence/regex theory, CrossHair's str/regex models (repaired, validated at selftest). Assumed away: strings whose non-epoch part begins or ends with a hyphen ('-9', '1-'): the statement's grammar does not settle them (the library folds the hyphen into the upstream version, dpkg rejects them). Code points above U+2FFFF are outside engine B.",
 )
 
